@@ -27,6 +27,11 @@ def dense(M):
 
 
 def rel(a, b):
+    from harness.props import c06 as _base
+    return _base._rec(_rel0(a, b))
+
+
+def _rel0(a, b):
     a = np.asarray(a, dtype=float); b = np.asarray(b, dtype=float)
     if a.shape != b.shape or not (np.all(np.isfinite(a)) and np.all(np.isfinite(b))):
         return float("inf")
@@ -269,9 +274,10 @@ def run_factor(ctx, cuqi, r, thorough):
                         M_ = U + U.T + 6.0 * np.eye(dim)          # symmetric sqrtcov: S Sᵀ = Sᵀ S
                     val = cast(M_); tok = "m:" + qm(M_)
                     doc = {"cov": lambda: np.linalg.inv(M_), "prec": lambda: M_, "sqrtcov": lambda: np.linalg.inv(M_.T @ M_), "sqrtprec": lambda: M_.T @ M_}[kind]()
-                # narrow integer dtypes: numpy evaluates sqrt / divisions of int16 / uint8 arrays in float32 (observation) — compared to 1e-6
+                # narrow integer dtypes: numpy evaluates np.sqrt of an int16 array in float32 and of a uint8 array in FLOAT16 (eps 1e-3), and
+                # cuqi does not cast (observation, see docs/C06.md) — compared to 1e-5 / 1e-2: gross errors (integer arithmetic) are still caught
                 cases.append({"valid": True, "dim": dim, "kind": kind, "val": val, "tok": tok, "tag": f"{kind}-{shape}-{form}", "doc": doc,
-                              "tol": 1e-6 if form in ("int16", "uint8") else None})
+                              "tol": {"int16": 1e-5, "uint8": 1e-2}.get(form)})
     for t in range(n_invalid):
         dim = int(r.randint(2, 6))
         dim, kind, val, tok, tag = gen_invalid(r, dim)
@@ -326,6 +332,10 @@ def run_factor(ctx, cuqi, r, thorough):
         size = int(toks[2])
         TOLc = c.get("tol") or TOL_F
         TOLd = c.get("tol") or 1e-9
+        if c.get("tol") and L.ndim == 2 and L.shape == c["doc"].shape:
+            hist.setdefault("narrow_dtype_deviation_max", {})
+            fm = tag.rsplit("-", 1)[-1]
+            hist["narrow_dtype_deviation_max"][fm] = max(hist["narrow_dtype_deviation_max"].get(fm, 0.0), _rel0(L.T @ L, c["doc"]))
         nfail = len(ctx.failures)
         dkeys = []
         if L.ndim != 2 or L.shape != (size, size):
